@@ -5,14 +5,16 @@ import LunaVerif.Model.Device.ControlM
 
 The event-level model `Device.core` (Model/Device/Control.lean) advances `start_position` by the literal 64 on the host
 ACK of a GET_DESCRIPTOR data packet (`Device.stdAck`) and marks the data stage as over after a packet shorter than 64
-bytes (`Device.onHandshake`, ghost `gDataDone`); every event-level co-simulation runs `max_packet_size = 64`.  The
+bytes (`Device.onHandshake`, ghost `gDataDone`).  The
 gateware (`StandardRequestHandler`: `next_start_position = start_position + self._max_packet_size`) and the cycle-level
 model (`CtrlCyc.stdStateBody`, co-simulated against the real `USBControlEndpoint(max_packet_size ∈ {8, 16, 32, 64})`)
 advance by the configured size.
 
-This file gives the event-level model with the advance by `c.maxPacket` (`coreM` / `stepM`: `Device.core` /
+Model/Device/ControlM.lean has the event-level model with the advance by `c.maxPacket` -- it is the model the shared
+driver `drv_dev` steps in the event-level co-simulation of the whole `USBDevice` (control max packet sizes 8 / 16 / 32 /
+64) --; this file is about it (`coreM` / `stepM`: `Device.core` /
 `Device.step` with `stdAckM` / `onHandshakeM` for the event "host handshake"; every other event is `Device.core`
-itself), shows that it IS `Device.core` / `Device.step` for `max_packet_size = 64` (`coreM_eq_core`, `stepM_eq_step`,
+itself): it shows that it IS `Device.core` / `Device.step` for `max_packet_size = 64` (`coreM_eq_core`, `stepM_eq_step`,
 `finalM_eq_final`), and proves the refinement of Lemmas/C07Stream*.lean for it with NO hypothesis on the max packet
 size (`cycle_refines_event_streams_mps`, `cycle_refines_event_all_mps`, `cycle_refines_event_streams_run_mps`,
 `cycle_refines_event_streams_from_reset_mps`).  The old theorem is the instance `max_packet_size = 64`
